@@ -153,6 +153,19 @@ def mirror_component(atom):
                     return f"probe-hash at depth {nshow(n[3][2])} only"
                 if n[0] == "call" and n[1][0] == "v" and len(n[2]) >= 2 and n[2][1][0] == "c":
                     return f"probe-hash at depth {nshow(n[2][1])} only"
+            # ... and the hash values themselves must be compared: a view that maps them (positions modulo the bit count, a
+            # sum, a digest prefix) lets different strategies agree where the probe key happens to land
+            core = x
+            while True:
+                if core[0] == "call" and core[1] in (("g", "list"), ("g", "tuple")) and len(core[2]) == 1 and not core[3]:
+                    core = core[2][0]
+                elif core[0] == "comp" and core[1] in ("list", "tuple") and len(core[3]) == 1 and not core[3][0][3] \
+                        and core[2][0] == "it" and core[2][1] == core[3][0][1]:
+                    core = core[3][0][2]  # [h for h in hashes]: the same sequence
+                else:
+                    break
+            if not ((core[0] == "ret" and core[1].endswith(".hashes")) or (core[0] == "call" and core[1][0] == "v")):
+                return f"probe-hash seen only through {nshow(x)[:80]}"
             return "probe-hash"
         return nshow(x)
     return None
